@@ -47,6 +47,11 @@ def mk_rich_processor(ex, u):
         mutable = (st.alloc(HList([VInt(z3.Int(f"m{i}_l0")), VInt(z3.Int(f"m{i}_l1"))])) if i == 0 else
                    st.alloc(HDict([(VStr("offset"), VFloat(z3.Real(f"m{i}_offset")))])))
         d.items = [(k0, d.items[0][1]), (k1, mutable)]
+    # the running-mode object hanging on the processor (with the user's Readout) is part of what must not be shared
+    oci, rci = u.cls(f"{OBS}::Observation"), u.cls("pyxel/exposure/readout.py::Readout")
+    times = st.alloc(HArr((z3.Int("n_readout_times"),), VDtype("float64"), lambda ix: VFloat(z3.Function("user_times", z3.IntSort(), z3.RealSort())(z_int(ix[0])))))
+    ro = st.alloc(HObj(rci, {"_times": times, "_start_time": VFloat(0.0), "_non_destructive": VBool(False), "_time_domain_simulation": VBool(True)}))
+    st.cell(proc).fields["observation"] = st.alloc(HObj(oci, {"readout": ro, "outputs": NONE, "_pipeline_seed": NONE, "with_dask": VBool(False)}))
     # every OTHER model group of the pipeline is populated too (one model each): a copy must carry all ten groups
     pipe = st.cell(ex.scn["pipe"])
     pci = pipe.cls
@@ -156,13 +161,25 @@ args = {'level': 1, 'table': [1, 2, 3]}
 groups = ['scene_generation', 'phasing', 'charge_generation', 'charge_collection', 'charge_transfer', 'charge_measurement', 'signal_transfer', 'readout_electronics', 'data_processing']
 pipe = DetectionPipeline(photon_collection=[ModelFunction(func='verif_probes.probe', name='m', arguments=args)],
                          **{g: [ModelFunction(func='verif_probes.probe', name=g + '_m', arguments={'level': i}, enabled=bool(i % 2))] for i, g in enumerate(groups)})
-proc = Processor(detector=det, pipeline=pipe)
+from pyxel.observation import Observation, ParameterValues
+from pyxel.exposure import Readout
+user_readout = Readout(times=[1.0])
+obs = Observation(parameters=[ParameterValues(key='observation.readout.times', values=[[2.0], [3.0]])], readout=user_readout)
+proc = Processor(detector=det, pipeline=pipe, observation_mode=obs)
 def layout(p):
     return [(g, [(m.name, m.enabled, dict(m.arguments)) for m in getattr(p.pipeline, g).models] if getattr(p.pipeline, g) is not None else None) for g in ['photon_collection'] + groups]
 VIOLATED, DETAIL = False, ''
 for make in (lambda: create_new_processor(processor=proc, parameter_dict={'detector.characteristics.quantum_efficiency': 0.25}),
-             lambda: proc.replace({'pipeline.photon_collection.m.arguments.level': 5}), lambda: copy.deepcopy(proc)):
+             lambda: proc.replace({'pipeline.photon_collection.m.arguments.level': 5}), lambda: copy.deepcopy(proc),
+             lambda: proc.replace({'detector.characteristics.quantum_efficiency': 0.5}),          # values the processor already holds
+             lambda: create_new_processor(processor=proc, parameter_dict={'detector.characteristics.quantum_efficiency': 0.5})):
     new = make()
+    if new is proc or new.detector is proc.detector or new.pipeline is proc.pipeline:
+        VIOLATED, DETAIL = True, 'the processor handed to a run IS the one of the caller (no copy made when the requested values equal the current ones)'
+        break
+    if new.observation is not None and (new.observation is proc.observation or new.observation.readout is user_readout):
+        VIOLATED, DETAIL = True, 'the copy shares the running-mode object of the caller / the Readout of the user'
+        break
     want = layout(proc)
     if make.__code__.co_consts and 'pipeline.photon_collection.m.arguments.level' in str(make.__code__.co_consts):
         want[0] = ('photon_collection', [('m', True, {'level': 5, 'table': [1, 2, 3]})])
@@ -245,6 +262,9 @@ def deepcopy_unit(u: Unit):
         u.oblige(p, "deepcopy.group.caller_unchanged", not C08.changed(p.ex, h2["snap"], h2["upto"]), {}, ISO_REPLAY)
 
 
+QNEW = z3.Real("requested_quantum_efficiency")
+
+
 def new_processor_unit(label, qual, call):
     def un(u: Unit):
         cfg = mk_cfg(u)
@@ -255,11 +275,13 @@ def new_processor_unit(label, qual, call):
         def setup(ex):
             proc = mk_rich_processor(ex, u)
             key = L.make_key([VStr("detector"), VStr("characteristics"), VStr("quantum_efficiency")])
-            key2 = L.make_key([VStr("pipeline"), VStr(C08.GROUP), ex.scn["names"][0], VStr("arguments"), ex.scn["argn"][1]])
-            d = ex.st.alloc(HDict([(key, VFloat(0.25)), (key2, VInt(z3.Int("swept_value")))]))
+            key2 = L.make_key([VStr("pipeline"), VStr(C08.GROUP), ex.scn["names"][0], VStr("arguments"), ex.scn["argn"][0]])
+            # the requested values are arbitrary: they MAY coincide with the values the processor already holds
+            ex.st.assume(z3.And(QNEW >= 0, QNEW <= 1))
+            d = ex.st.alloc(HDict([(key, VFloat(QNEW)), (key2, VInt(z3.Int("swept_value")))]))
             holder.update(proc=proc, upto=ex.st.next_addr + 1, snap=None)
             holder["snap"] = C08.snapshot(ex)
-            swept_arg = str(ex.scn["argn"][1].v)
+            swept_arg = str(ex.scn["argn"][0].v)
             holder["allow"] = lambda cls, key, swept_arg=swept_arg: (cls == "Characteristics" and key == "_quantum_efficiency") or (cls == "dict" and key == swept_arg)
             return call(proc, d)
         ps = u.paths(fi, setup, cfg, label=label)
@@ -273,7 +295,7 @@ def new_processor_unit(label, qual, call):
             try:
                 ncht = st.cell(st.cell(st.cell(p.value).fields["detector"]).fields["_characteristics"]).fields["_quantum_efficiency"]
                 ocht = st.cell(p.ex.scn["cht"]).fields["_quantum_efficiency"]
-                ok = isinstance(ncht, VFloat) and ncht.v == 0.25 and isinstance(ocht, VFloat) and ocht.v == 0.5
+                ok = isinstance(ncht, VFloat) and not is_conc(ncht.v) and z3.eq(ncht.v, QNEW) and isinstance(ocht, VFloat) and ocht.v == 0.5
             except Exception:
                 ok = False
             u.oblige(p, f"{label}.sets_on_the_copy_only", bool(ok), {}, ISO_REPLAY)
